@@ -112,6 +112,13 @@ enclosing handler in its method is one of the listed sites.  A new unguarded con
 theorem unguarded_sites_baseline :
     unguardedSites.all (EPV.C03Cover.unguardedBaseline.contains ·) = true := by decide +kernel
 
+/-- every look-up in a per-call table (namespaces, variables, documents, collections, text_resources,
+symbol_table, decimal_formats, variable_types) of the operator / function / token modules, together with the
+handler classes of its innermost enclosing `try`, is a row of the reviewed baseline: removing or narrowing an
+`except KeyError` around such a look-up (e.g. in `cast_to_primitive_type`) breaks this theorem. -/
+theorem lookup_sites_baseline :
+    lookupSites.all (EPV.C03Cover.lookupBaseline.contains ·) = true := by decide +kernel
+
 /-- hang part, tabulated: every `while` statement of the package (file, function, loop test) is listed in
 `EPV.C03Cover.whileBaseline` with its termination argument — three of them `proved` by theorems of this
 property (`advance_until`, the comment loop, and — in part — `expression`), the others `argued`.  A new
